@@ -354,12 +354,16 @@ ORACLES = {'C02': oracle_C02, 'C05': oracle_C05, 'C10': oracle_C10, 'C06': oracl
 
 
 def plan_chunks(tier, parts=None):
-    parts = parts or (8 if tier == 'quick' else 16)
-    return [{'kind': 'live', 'part': i, 'parts': parts, 'tier': tier} for i in range(parts)]
+    if tier == 'quick':
+        parts = parts or 8
+        return [{'kind': 'live', 'part': i, 'parts': parts, 'tier': tier, 'inits': 'quick', 'depth': 3} for i in range(parts)]
+    # thorough: the small initial set one step deeper, and the larger initial set (4 tokens with a unary insertion)
+    return [{'kind': 'live', 'part': i, 'parts': 16, 'tier': tier, 'inits': 'quick', 'depth': 4} for i in range(16)] + \
+           [{'kind': 'live', 'part': i, 'parts': 16, 'tier': tier, 'inits': 'thorough', 'depth': 3} for i in range(16)]
 
 
 ASSUMPTION = ('live-state pool (vt/livepool.py): the oracle is also evaluated in every distinct state that a BFS over live '
-              'objects reaches within depth %d (quick) / %d (thorough) from every hierarchy over 2-4 tokens (5 provenances: '
+              'objects reaches within depth %d (quick) / %d (thorough; depth 3 from the larger initial set with unary insertions over 4 tokens) from every hierarchy over 2-4 tokens (5 provenances: '
               'API, reversed child lists, export reader, TIGER-XML reader, written once) under %d in-place operations '
               '(the 15 transformation instances of C04 with their prerequisite rules, deletion of the first / last token, '
               'export writer passes without options / with gf decorations / with split decorations, a bracket writer pass (refused for discontinuous trees), a gap-degree analysis, a grammar extraction); states are kept apart by canonical form, '
@@ -375,10 +379,10 @@ def run_chunk(pid, chunk, res):
     """One part of the pool (initial trees i with i % parts == part) under the oracle of property pid."""
     oracle = ORACLES[pid]
     tier = chunk.get('tier', 'quick')
-    inits = livepool.default_inits(tier)
+    inits = livepool.default_inits(chunk.get('inits', tier))
     mine = [(i, m) for i, m in enumerate(inits) if i % chunk['parts'] == chunk['part']]
     counts = None
-    for hist, flags, prov, t, init, counts in livepool.live_states([m for _, m in mine], DEPTH[tier], first=chunk['part']):
+    for hist, flags, prov, t, init, counts in livepool.live_states([m for _, m in mine], chunk.get('depth', DEPTH[tier]), first=chunk['part']):
         if not t.children:
             continue
         case = {'live': {'init': init.to_json(), 'prov': prov, 'program': hist[1:]}, 'pid': pid}
